@@ -315,3 +315,77 @@ Proof.
     unfold fault_stream, fault_tagged in H. cbn [words_stream junk map app entry_word] in H. rewrite app_nil_r in H.
     apply H. constructor; [cbn [word_ok]; auto|constructor].
 Qed.
+
+(* ================================================================================================
+   7. the faulted board among ARBITRARY other boards
+   ================================================================================================ *)
+Definition of_board (b : N) (r : row) : bool := r_board r =? b.
+
+Lemma filter_rows_spec_same b : forall l prev, filter (of_board b) (rows_spec b prev l) = rows_spec b prev l.
+Proof.
+  induction l as [|[ch tr ts|top c] t IH]; intros prev; cbn [rows_spec filter]; [reflexivity| |apply IH].
+  unfold of_board at 1. cbn [r_board]. rewrite N.eqb_refl, IH. reflexivity.
+Qed.
+Lemma filter_rows_spec_other b b' : b' <> b -> forall l prev, filter (of_board b) (rows_spec b' prev l) = [].
+Proof.
+  intros Hne. induction l as [|[ch tr ts|top c] t IH]; intros prev; cbn [rows_spec filter]; [reflexivity| |apply IH].
+  unfold of_board at 1. cbn [r_board]. destruct (N.eqb_spec b' b); [contradiction|]. apply IH.
+Qed.
+Lemma filter_rows_absent b : forall fs, ~ In b (map fst fs) -> filter (of_board b) (rows_of_fifos fs) = [].
+Proof.
+  induction fs as [|[b' f'] fs IH]; intros Hn; [reflexivity|].
+  unfold rows_of_fifos in *. cbn [flat_map fst snd map] in *. rewrite filter_app.
+  rewrite filter_rows_spec_other by (intros ->; apply Hn; left; reflexivity).
+  apply IH. intros Hi. apply Hn. right. assumption.
+Qed.
+Lemma filter_rows_of_fifos b : forall fs, NoDup (map fst fs) -> forall f, In (b, f) fs ->
+  filter (of_board b) (rows_of_fifos fs) = rows_spec b None f.
+Proof.
+  induction fs as [|[b' f'] fs IH]; intros Hnd f Hi; [destruct Hi|].
+  cbn [map fst] in Hnd. apply NoDup_cons_iff in Hnd as [Hni Hnd].
+  unfold rows_of_fifos in *. cbn [flat_map fst snd]. rewrite filter_app. destruct Hi as [[= -> ->]|Hi].
+  - rewrite filter_rows_spec_same. fold (rows_of_fifos fs). rewrite (filter_rows_absent b fs Hni). apply app_nil_r.
+  - assert (b' <> b) by (intros ->; apply Hni; apply (in_map fst _ _ Hi)).
+    rewrite filter_rows_spec_other by assumption. apply IH; assumption.
+Qed.
+
+Lemma ssorted_lt_nodup : forall l, StronglySorted N.lt l -> NoDup l.
+Proof.
+  induction l as [|a l IH]; intros H; [constructor|]. apply StronglySorted_inv in H as [Hs Hf].
+  constructor; [|apply IH; assumption]. intros Hi. rewrite Forall_forall in Hf. specialize (Hf a Hi). lia.
+Qed.
+
+Lemma cb_fifos_keys : forall m fs, cb_fifos m = Ok fs -> map fst fs = keys m.
+Proof.
+  intros m fs H. apply cb_fifos_ok in H. induction H as [|bb bf m fs [Hk _] _ IH]; [reflexivity|].
+  unfold keys in *. cbn [map]. rewrite Hk, IH. reflexivity.
+Qed.
+Lemma cb_fifos_in : forall m fs b buf, cb_fifos m = Ok fs -> In (b, buf) m ->
+  exists f, In (b, f) fs /\ cb_board_fifo buf = Ok f.
+Proof.
+  intros m fs b buf H. apply cb_fifos_ok in H. induction H as [|bb [b' f'] m fs [Hk Hf] _ IH]; intros Hi; [destruct Hi|].
+  cbn [fst snd] in *. destruct Hi as [->|Hi].
+  - cbn [fst snd] in *. subst b'. exists f'. split; [left; reflexivity|assumption].
+  - destruct (IH Hi) as (f & Hif & Hbf). exists f. split; [right; assumption|assumption].
+Qed.
+
+Theorem fault_program_boards b l1 mid X l2 pieces :
+  hw_wf 0 (l1 ++ mid ++ l2) -> Forall word_ok X ->
+  present b pieces = true -> concat_of b pieces = fault_stream l1 X l2 ->
+  (exists k, cb_program pieces = Err k) \/
+  (exists rows, cb_program pieces = Ok rows /\
+     Forall2 (row_sound b) (owed false (fault_tagged l1 X l2)) (filter (of_board b) rows)).
+Proof.
+  intros Hw HX Hp Hc. destruct (cb_program pieces) as [rows|k|] eqn:E.
+  - right. exists rows. split; [reflexivity|].
+    apply cb_program_ok in E as (fs & Hfs & ->).
+    assert (Hi : In (b, fault_stream l1 X l2) (cb_buffers pieces)) by (apply cb_buffers_in; split; [assumption|symmetry; assumption]).
+    destruct (cb_fifos_in _ _ _ _ Hfs Hi) as (f & Hif & Hbf).
+    assert (Hnd : NoDup (map fst fs)).
+    { rewrite (cb_fifos_keys _ _ Hfs). apply ssorted_lt_nodup. apply cb_buffers_spec. }
+    rewrite (filter_rows_of_fifos b fs Hnd f Hif).
+    destruct (fault_board b l1 mid X l2 Hw HX) as [(k & Hk)|(fifo & rows & Hf & Hr & HF)]; [congruence|].
+    rewrite Hbf in Hf. injection Hf as <-. rewrite board_rows_spec in Hr. injection Hr as <-. exact HF.
+  - left. eexists. reflexivity.
+  - exfalso. exact (cb_program_no_panic pieces E).
+Qed.
